@@ -4674,7 +4674,12 @@ class DecConvex(Convex):
             else:
                 values_out = self.affine_out
             if not isinstance(values_in, pd.Series):
-                values_in = pd.Series([values_in])
+                if isinstance(values_out, pd.Series):
+                    # a static argument with an event-wise affine part
+                    values_in = pd.Series([values_in] * len(values_out),
+                                          index=values_out.index)
+                else:
+                    values_in = pd.Series([values_in])
             if not isinstance(values_out, pd.Series):
                 values_out = pd.Series([values_out] * len(values_in))
 
